@@ -2,7 +2,7 @@
 import itertools
 from .family import Family
 
-PROPS_MODULES = ["C13", "MemOps"]
+PROPS_MODULES = ["C13", "MemOps", "HandlerOps"]
 RULE = ("family `mem`: a real VhostUserDaemon (RecordingBackend, empty initial GuestMemoryMmap) is driven by an independent raw "
         "vhost-user peer through histories of SET_MEM_TABLE / ADD_MEM_REG / REM_MEM_REG with 1..8 memfd-backed regions: "
         "adjacent, overlapping, duplicate and unordered tables, adds in any order, removal of absent and size-mismatched "
